@@ -72,7 +72,8 @@ pub fn expand_type_support(input: &DeriveInput) -> Result<TokenStream> {
                         member_hash[2],
                         member_hash[3],
                     ]);
-                    syn::parse_str(&member_hash_int.to_string())?
+                    // XTypes 7.3.1.2.1.1: the member id is the hash masked to the 28 bits of a member id
+                    syn::parse_str(&(member_hash_int & 0x0FFF_FFFF).to_string())?
                 } else {
                     match r#struct.extensibility {
                         Extensibility::Final | Extensibility::Appendable => {
